@@ -201,12 +201,18 @@ Fixpoint propagate_tags (t : tree) (fv : fvals) (s : list field) (parents : fval
    Result: new state and None (returned normally) / Some k (raised Failed k) / Some (-1) (other). *)
 Definition E_OTHER : Z := -1.
 
-Definition add_field (st : state) (fv : fvals) (i : ident) (len start : option Z) (tags : list Z)
-  : state * option Z :=
+(* the range test of add_field: `not 0 <= start_at < self.length or start_at + (length or 1) > self.length`;
+   [orig]: the code as found before fix 27665d7, `0 <= start_at >= self.length or ...`, which lets every
+   negative start_at through *)
+Definition range_bad (orig : bool) (L s : Z) (len : option Z) : bool :=
+  (if orig then (0 <=? s) && (s >=? L) else negb ((0 <=? s) && (s <? L))) || (s + len_or1 len >? L).
+
+Definition add_field_gen (orig : bool) (st : state) (fv : fvals) (i : ident) (len start : option Z)
+           (tags : list Z) : state * option Z :=
   let L := s_len st in
   if match len with Some l => l <=? 0 | None => false end then (st, Some E_VALUE)
   else if match start with
-          | Some s => ((0 <=? s) && (s >=? L)) || (s + len_or1 len >? L)
+          | Some s => range_bad orig L s len
           | None => false
           end then (st, Some E_VALUE)
   else if match start with
@@ -236,6 +242,9 @@ Definition add_field (st : state) (fv : fvals) (i : ident) (len start : option Z
             (mkState L t' s2 (s_insts st), e)
         end
     end.
+
+Definition add_field := add_field_gen false.
+Definition add_field_orig := add_field_gen true.      (* the code as found *)
 
 (* ------------------------------------------------------------------ BitField.__call__ *)
 Definition pow2 (l : Z) : Z := Z.shiftl 1 l.
